@@ -59,12 +59,27 @@ REQUIRE = {
     "form:IntEdit:kw": 2,
     "form:IntEdit:defaults": 2,
     "numeric_constructed_through_deprecated_option": 5,
+    "directed:46b965d": 60,
+    "directed:c084bec": 40,
+    "directed:ba58766": 500,
+    "directed:e0fc36b": 30,
+    "directed:9a21b78": 100,
+    "directed:786c2fa": 25,
+    "enc:iso8859-1": 8,
+    "enc:iso8859-15": 8,
+    "enc:koi8-r": 8,
+    "enc:cp1252": 8,
     "sweep_sessions": 40,
     "random_sessions": 80,
 }
 RULE = (
-    "a case = one session descriptor (class, encoding utf-8/euc-jp/ascii, str|bytes, caption, text, width 1..20, "
+    "a case = one session descriptor (class, encoding utf-8 / euc-jp / ascii / iso8859-1 / iso8859-15 / koi8-r / cp1252 "
+    "(directed cases also euc-kr, gbk, big5), str|bytes, caption, text, width 1..20, "
     "wrap space/any/clip, align, multiline, allow_tab, mask, initial offset, observation period, op list); "
+    "(0) directed: 1159 fixed descriptors covering every case named by the fixed: C10 findings (typed characters the "
+    "encoding has / lacks into bytes text under every encoding, handler-visible offset around multi-byte neighbours, "
+    "half wide characters in 1..3 column views, zero-width-only lines and words, FloatEdit defaults x separator x "
+    "constructor form, sign / non-ASCII look-alike keys in the numeric editors), all run on every run; "
     "(a) sweep (time-bounded sample in hashed order of ~160k states): curated (caption,text) x str|bytes x 3 encodings x "
     "width 1..12 x wrap x align x every offset, each of the used keys / a narrow and a "
     "wide printable / a click on every cell applied from that state (state restored with set_edit_text/set_edit_pos "
@@ -90,8 +105,9 @@ ASSUMES = [
     "a used key that cannot act (left at 0, up on the first row, backspace at 0 ...) leaves the state unchanged; "
     "its return value is not judged (statement only fixes it for keys the editor does not use)",
     "'tab' with allow_tab inserts 1..8 spaces (documented range; exact count not judged)",
-    "printable keys are single characters of the active encoding's alphabet; typing one into a bytes Edit inserts "
-    "its encoding under the active encoding",
+    "printable keys are single characters; typing one into a bytes Edit inserts its encoding under the active "
+    "encoding, or the codec's replacement ('?') when that encoding lacks the character (urwid's documented 'replace' "
+    "convention for text it cannot encode; measured on the unchanged tree)",
     "numeric variants: reference editor + documented filter + documented leading-zero removal (while offset > 0); "
     "defaults are plain non-negative decimal / base-N literals",
     "mask is one unit long (one character for str, one byte for bytes)",
@@ -99,7 +115,21 @@ ASSUMES = [
     "double-width character at the last column is compared by position only",
 ]
 
-ENC_MODE = {"utf-8": "utf8", "euc-jp": "wide", "ascii": "narrow"}
+ENC_MODE = {
+    "utf-8": "utf8",
+    "euc-jp": "wide",
+    "ascii": "narrow",
+    # 8-bit encodings (narrow mode): typed non-ASCII characters must go into bytes text in THIS encoding
+    "iso8859-1": "narrow",
+    "iso8859-15": "narrow",
+    "koi8-r": "narrow",
+    "cp1252": "narrow",
+    # further double-byte encodings (only used by the directed cases)
+    "euc-kr": "wide",
+    "gbk": "wide",
+    "big5": "wide",
+}
+RANDOM_ENCS = ["utf-8", "utf-8", "euc-jp", "euc-jp", "ascii", "iso8859-1", "iso8859-15", "koi8-r", "cp1252"]
 WRAPS = ("space", "any", "clip")
 ALIGNS = ("left", "center", "right")
 UNUSED_KEYS = ("f5", "ctrl x", "page up", "page down", "meta a", "shift f1", "esc", "insert", "ctrl n", "shift tab", "ctrl left", "f12")
@@ -110,6 +140,13 @@ _ALPHA_RAW = {
     "utf-8": {"narrow": _NARROW, "latin": "éüß", "wide": "漢字あ한", "comb": "\u0301\u0308", "emoji": "😀"},
     "euc-jp": {"narrow": _NARROW, "wide": "漢字あア"},
     "ascii": {"narrow": _NARROW},
+    "iso8859-1": {"narrow": _NARROW, "latin": "éüß"},
+    "iso8859-15": {"narrow": _NARROW, "latin": "éß€"},
+    "koi8-r": {"narrow": _NARROW, "latin": "Яжё"},
+    "cp1252": {"narrow": _NARROW, "latin": "\u00e9\u00df\u20ac"},
+    "euc-kr": {"narrow": _NARROW, "wide": "한"},
+    "gbk": {"narrow": _NARROW, "wide": "漢字"},
+    "big5": {"narrow": _NARROW, "wide": "漢字"},
 }
 
 
@@ -167,7 +204,19 @@ SIGN_PLAY = [["char", "-"], ["char", "-"], ["key", "home"], ["key", "left"], ["k
              ["char", "."], ["char", ","], ["key", "backspace"], ["key", "delete"]]  # fmt: skip
 
 
-def gen_ops(rng, enc, width, n, numeric=False):
+def _lacks(ch, enc):
+    try:
+        ch.encode(enc)
+    except UnicodeEncodeError:
+        return True
+    return False
+
+
+# characters the encoding cannot express: typed into bytes text they must arrive as the codec replacement
+FOREIGN = {enc: [c for c in "漢😀éЯ" if _lacks(c, enc)] for enc in ENC_MODE}
+
+
+def gen_ops(rng, enc, width, n, numeric=False, foreign=False):
     ops = []
     sign_play = numeric and rng.random() < 0.35  # short alphabet around the sign / separator / zeros
     for _ in range(n):
@@ -177,6 +226,8 @@ def gen_ops(rng, enc, width, n, numeric=False):
             continue
         if r < 0.33:
             ch = rng.choice(NUM_ODD_KEYS) if numeric else gen_key(rng, enc)
+            if foreign and FOREIGN[enc] and rng.random() < 0.08:
+                ch = rng.choice(FOREIGN[enc])
             if numeric and rng.random() < 0.5:
                 ch = rng.choice("0123456789")
             ops.append(["char", ch])
@@ -222,7 +273,7 @@ def gen_width(rng):
 
 
 def gen_plain(rng):
-    enc = rng.choice(list(ENC_MODE))
+    enc = rng.choice(RANDOM_ENCS)
     width = gen_width(rng)
     text = gen_text(rng, enc, rng.choice([3, 8, 16, 30]))
     caption = gen_text(rng, enc, rng.choice([0, 0, 2, 5, 9]), newlines=rng.random() < 0.3)
@@ -248,13 +299,13 @@ def gen_plain(rng):
         "mask": mask,
         "pos": None if rng.random() < 0.5 else rng.randint(0, nchars),
         "obs": rng.choice([1, 1, 3, 1000]),
-        "ops": gen_ops(rng, enc, width, rng.randint(5, 40)),
+        "ops": gen_ops(rng, enc, width, rng.randint(5, 40), foreign=is_bytes),
     }
 
 
 def gen_numeric(rng):
     cls = rng.choice(["IntEdit", "IntegerEdit", "FloatEdit"])
-    enc = rng.choice(list(ENC_MODE))
+    enc = rng.choice(RANDOM_ENCS)
     width = gen_width(rng)
     d = {
         "cls": cls,
@@ -956,12 +1007,22 @@ SWEEP_TEXTS = {
     "utf-8": ["", "a", "abc", "ab cd", "hello world foo", "漢", "a漢b", "漢字", "ab\ncd", "a\n", "\n", "éx", "x 漢字 y", "aaaa bbbb", "abcdefghij", "あa\nいうb"],
     "euc-jp": ["", "abc", "ab cd", "漢", "a漢b", "漢字あ", "ab\n漢", "x 漢字 y", "abcdefghij"],
     "ascii": ["", "a", "ab cd", "hello world foo", "ab\ncd", "\n\n", "abcdefghij"],
+    "iso8859-1": ["", "ab", "a\u00e9b \u00dfx", "\u00e9\n\u00fc"],
+    "koi8-r": ["ab", "a\u042fb \u0436x"],
+    "cp1252": ["ab", "\u20ac5 a\u00e9"],
 }
-SWEEP_CAPS = {"utf-8": ["", "C", "Cap: ", "漢:", "two\nl"], "euc-jp": ["", "C", "漢:"], "ascii": ["", "C", "Cap: ", "two\nl"]}
+SWEEP_CAPS = {
+    "utf-8": ["", "C", "Cap: ", "漢:", "two\nl"],
+    "euc-jp": ["", "C", "漢:"],
+    "ascii": ["", "C", "Cap: ", "two\nl"],
+    "iso8859-1": ["", "> ", "\u00e9:"],
+    "koi8-r": ["", "> "],
+    "cp1252": ["", "\u20ac "],
+}
 
 
 def sweep_configs():
-    for enc in ENC_MODE:
+    for enc in SWEEP_TEXTS:
         for is_bytes in (False, True):
             for cap in SWEEP_CAPS[enc]:
                 for text in SWEEP_TEXTS[enc]:
@@ -977,6 +1038,10 @@ def sweep_desc(cfg, pos, flags):
     probes = [["key", k] for k in NAV] + [["key", "backspace"], ["key", "delete"], ["key", "enter"], ["key", "tab"], ["key", "f5"], ["char", "z"]]
     if wide:
         probes.append(["char", wide[0]])
+    for ch in ALPHA[enc].get("latin", "")[:2]:
+        probes.append(["char", ch])
+    if is_bytes and FOREIGN[enc]:
+        probes.append(["char", FOREIGN[enc][0]])
     nrows = min(4, text.count("\n") + cap.count("\n") + (len(text) + len(cap)) // max(1, width // 2) + 2)
     for row in range(nrows):
         for col in range(width):
@@ -1002,6 +1067,73 @@ def sweep_desc(cfg, pos, flags):
         "obs": 1,
         "ops": ops,
     }
+
+
+# ------------------------------------------------------------------ directed regression cases
+
+
+def _plain(enc, is_bytes, caption, text, width, ops, pos=None, wrap="space", align="left", multiline=False, mask=None, obs=1):
+    return {"cls": "Edit", "enc": enc, "bytes": is_bytes, "caption": caption, "cap_attr": False, "text": text, "width": width,
+            "wrap": wrap, "align": align, "multiline": multiline, "allow_tab": False, "mask": mask, "pos": pos, "obs": obs, "ops": ops}  # fmt: skip
+
+
+def _num(cls, ops, width=12, **kw):
+    d = {"cls": cls, "enc": "utf-8", "bytes": False, "caption": "", "cap_attr": False, "text": "", "width": width, "wrap": "space",
+         "align": "left", "multiline": False, "allow_tab": False, "mask": None, "pos": None, "obs": 1, "default": None, "ops": ops}  # fmt: skip
+    d.update(kw)
+    return d
+
+
+def K(*names):
+    return [["char", n] if len(n) == 1 else ["key", n] for n in names]
+
+
+def directed_descs():
+    """every case named by a `fixed: property=C10` line / its commit message, run on every shard-partition of every run;
+    yields (family, descriptor)"""
+    # 46b965d typed characters go into bytes text in the ACTIVE encoding: every wide and every 8-bit encoding,
+    # characters the encoding has (1 or 2 bytes) and characters it lacks (codec replacement), then editing around them
+    for enc in ENC_MODE:
+        al = ALPHA[enc]
+        chars = list(al.get("wide", "")) + list(al.get("latin", "")) + FOREIGN[enc][:2]
+        for ch in chars:
+            for width in (7, 3):
+                ops = K(ch, "left", "right", ch, "backspace", "home", "delete", "end", "up", "down")
+                yield "46b965d", _plain(enc, True, "> ", "ab", width, ops, pos=1)
+                yield "46b965d", _plain(enc, True, "", "", width, ops, wrap="clip")
+    # c084bec offset seen by change/postchange during backspace (bytes text, multi-byte neighbours), delete too
+    for enc, text in (("utf-8", "あaいb"), ("utf-8", "b😀é"), ("euc-jp", " 漢"), ("euc-jp", "あaいb"), ("gbk", "a漢b"), ("iso8859-1", "aéb")):
+        for pos in range(len(text) + 1):
+            yield "c084bec", _plain(enc, True, "", text, 9, K("backspace", "backspace", "delete"), pos=pos)
+            yield "c084bec", _plain(enc, False, "", text, 9, K("backspace", "delete"), pos=pos)
+    # ba58766 only half of a wide character left in the (shifted / clipped) view
+    for enc in ("utf-8", "euc-jp"):
+        for is_bytes in (False, True):
+            for cap, text in (("C", "漢"), ("漢", ""), ("", "漢"), ("", "a漢"), ("", "漢a"), ("あ", "\n"), ("", "漢字")):
+                for wrap in WRAPS:
+                    for align in ALIGNS:
+                        for width in (1, 2, 3):
+                            yield "ba58766", _plain(enc, is_bytes, cap, text, width, K("left", "right", "home", "end", "up", "down"), wrap=wrap, align=align, multiline=True)
+    # e0fc36b lines / wrapped words made of zero-width characters only
+    for is_bytes in (False, True):
+        for wrap in WRAPS:
+            for cap, text, width in (("", "", 5), ("\u0301 ", "aaaaaaaaa", 9), ("", "\u0301 a", 1), ("", "\u0301", 5), ("", "a\n\u0308\nb", 4), ("", "\u200d", 3)):
+                ops = K("\u0308", "left", "right", "up", "down", "home", "end", "backspace", "a", "\u0301", "enter", "\u0301") + [["click", 0, 0, 1, True], ["click", 0, 1, 1, True]]
+                yield "e0fc36b", _plain("utf-8", is_bytes, cap, text, width, ops, wrap=wrap, multiline=True)
+    # 9a21b78 FloatEdit default shown with the configured separator, through every constructor form
+    for form in ("kw", "dep_kw", "dep_pos", "mixed"):
+        for sep in (",", "."):
+            for dflt in ("0.5", "3.1415", "100.00", 12, "7.", "", None):
+                for preserve in (True, False):
+                    yield "9a21b78", _num("FloatEdit", K(".", ",", "1", "home", ",", ".", "end", "backspace"), form=form, sep=sep, preserve=preserve, neg=False, default=dflt)
+    # 786c2fa sign stays leading; ASCII alphabet only
+    for cls, extra in (("IntegerEdit", {"base": 10}), ("IntegerEdit", {"base": 16}), ("IntegerEdit", {"base": 36}), ("FloatEdit", {"sep": ".", "preserve": True})):
+        for ops in (K("-", "left", "7"), K("-", "home", "0"), K("5", "home", "-", "home", "7"), K("-", "5", "home", "right", "left", "3", "0"), K("-", "home", "-"), K("-", "5", "home", "delete", "0")):
+            yield "786c2fa", _num(cls, ops, form="kw", neg=True, **extra)
+    for base in (19, 29, 36):
+        yield "786c2fa", _num("IntegerEdit", K("ı", "ſ", "ﬆ", "ﬅ", "z", "Z", "²", "５"), form="kw", neg=False, base=base, default=15)
+    yield "786c2fa", _num("IntEdit", K("²", "５", "٣", "7"), form="pos", default=4)
+    yield "786c2fa", _num("FloatEdit", K("²", "５", "٣", "7", "."), form="kw", sep=".", preserve=True, neg=False)
 
 
 # ------------------------------------------------------------------ driver
@@ -1078,6 +1210,12 @@ def run(ctx):
     KNOWN.clear()
     KNOWN.update(core.load_findings(PROPERTY))
     try:
+        # (0) directed regression cases for every fixed finding (all of them on every run, partitioned over shards)
+        for i, (family, desc) in enumerate(directed_descs()):
+            if ctx.mine(i):
+                execute(ctx, desc, seen)
+                ctx.count("directed_sessions")
+                ctx.count(f"directed:{family}")
         # (a) depth-1 sweep: states visited in a seed-dependent hashed order (so a time-bounded run samples
         # every encoding / text type / wrap / align evenly), partitioned over shards, until half the budget is used
         states = [(cfg, pos) for cfg in sweep_configs() for pos in range(len(cfg[3]) + 1)]
